@@ -265,6 +265,8 @@ class QuickSampler:
             self.__circuit.heralds,
             self.input_state,
             self.post_select,
+            # Also store rules to detect when post-selection is modified
+            [r.as_tuple() for r in getattr(self.post_select, "rules", [])],
             self.photon_counting,
         ]
 
